@@ -80,7 +80,93 @@ def main(chk):
                     hs.append(total_harness(name, n, mode, (2 * n + 2) if q else (3 * n + 3), short=q))
                 else:
                     hs.append(total_harness(name, n, mode, 3 * n + 3))
+    from vlib import mirsym
+    mir = mirsym.dump_mir()
+    jobs = [(r_induct, (mir, name, n, chk.seed), {}) for name in RING for n in ((1, 2, 3, 4, 5) if q else (1, 2, 3, 4, 5, 6, 8, 12))]
+    chk.add(run_jobs(jobs))
     chk.add(kani.run_family_set('C12', hs, jobs=14, timeout_s=240 if q else 1800))
     chk.assumptions += ['Kani models the dev profile of /repo: overflow checks and debug assertions on; every Rust panic and CBMC memory-safety check is a violation',
                         'allocation failure out of scope (Kani default)']
     chk.notes += ['periods above the bound', 'Display/Debug/serialization totality (covered in C11/C06 harnesses)']
+
+
+# ------------------------------------------------------------------------------------------------ engine R: all history lengths
+# One inductive step on the cursor invariant: from EVERY cursor state in the (reachable) invariant set, with arbitrary real buffer
+# contents and accumulators, next(x) reaches no failing bounds/overflow/slice assertion and lands in the invariant set again.
+# With new() establishing the invariant this covers "arbitrarily many calls past every ring-buffer wrap-around" for the period.
+# A failed step is never reported as a violation (the pre-state may be unreachable): the family is not required.
+import z3
+from fractions import Fraction as F
+from vlib import rcore
+from vlib.mirsym import Executor, Unsupported, PathDead, Agg, Arr
+from vlib.inds import RInst
+from vlib.framework import run_jobs
+
+RING = {
+    'SMA': ('index', 'count'), 'WMA': ('index', 'count'), 'SD': ('index', 'count'), 'MAD': ('index', 'count'), 'ER': ('index', 'count'),
+    'ROC': ('index', 'count'), 'MFI': ('index', 'count'), 'MIN': ('cur_index', 'min_index'), 'MAX': ('cur_index', 'max_index'),
+}
+
+
+def invariant_set(name, n):
+    if name in ('MIN', 'MAX'): return [(i, j) for i in range(n) for j in range(n)]
+    if name == 'ROC': return sorted(set([(c % n, c) for c in range(n + 1)] + [(i, n + 1) for i in range(n)]))
+    return sorted(set([(c % n, c) for c in range(n + 1)] + [(i, n) for i in range(n)]))
+
+
+def r_induct(mir, name, n, seed):
+    fam = 'R:C12 cursor induction %s n=%d: one next() from every invariant cursor state, buffers and accumulators arbitrary reals' % (name, n)
+    inv = invariant_set(name, n)
+    f1, f2 = RING[name]
+    checked = 0
+    detail = ''
+    fns = set()
+    try:
+        for (a, b_) in inv:
+            ex = Executor(mir)
+            inst = RInst.create(ex, name, [n], None)
+            st = inst.state()
+            vals = []
+            for k_, v in enumerate(st.f):
+                nm = st.names[k_]
+                if nm == f1: vals.append(a)
+                elif nm == f2: vals.append(b_)
+                elif isinstance(v, F): vals.append(z3.Real('acc_' + nm))
+                else: vals.append(v)
+            ex.heap[inst.ptr.oid] = Agg(st.kind, vals, st.names)
+            boxp = st.f[st.names.index('deque')].f[0].f[0]
+            ex.heap[boxp.oid] = Arr([z3.Real('d%d' % i) for i in range(n)])
+            x = z3.Real('x') if IND[name]['scalar'] else tuple(z3.Real('b_' + f) for f in 'ohlcv')
+            try:
+                inst.feed(x)
+            except PathDead as e:
+                detail = detail or 'from cursor state %s=%d, %s=%d: %s' % (f1, a, f2, b_, e)
+                continue
+            bad = [p for p in ex.panics]
+            post = inst.state()
+            pa, pb = post.f[post.names.index(f1)], post.f[post.names.index(f2)]
+            ok_states = None
+            if z3.is_expr(pa) or z3.is_expr(pb):
+                # cursors became symbolic (Minimum/Maximum): every value they can take must be in the invariant set
+                s_ = z3.Solver(); s_.set('timeout', 20000)
+                s_.add(z3.Not(z3.Or(*[z3.And(rcore.to_z3(pa) == i, rcore.to_z3(pb) == j) for (i, j) in inv])))
+                r = s_.check()
+                if r != z3.unsat: detail = detail or 'from (%d,%d): post-state cursors may leave the invariant set (%s)' % (a, b_, r); continue
+            elif (pa, pb) not in inv:
+                detail = detail or 'from (%d,%d): post-state cursors (%s,%s) outside the invariant set' % (a, b_, pa, pb); continue
+            feasible_panic = False
+            for (cond, msg, fn) in bad:
+                s_ = z3.Solver(); s_.set('timeout', 20000); s_.add(cond)
+                if s_.check() != z3.unsat:
+                    feasible_panic = True; detail = detail or 'from (%d,%d): assertion may fail: %s' % (a, b_, msg[:80])
+            if not feasible_panic: checked += 1
+            fns |= set(ex.called)
+    except (Unsupported, ValueError, AttributeError, IndexError) as e:
+        return fam_result(fam, 'R', 'undecided', required=False, detail='R cannot encode / invariant not applicable: %r' % (e,),
+                          bounds=dict(engine='R', indicator=name, n=n, history='all lengths (induction)'))
+    ok = checked == len(inv)
+    return fam_result(fam, 'R', 'ok' if ok else 'undecided', required=False, detail=detail, obligations=len(inv), discharged=checked, symbolic_inputs=n + 2,
+                      witness='alive', functions=sorted(fns),
+                      bounds=dict(engine='R', indicator=name, n=n, history='all stream lengths by induction on the cursor invariant', invariant_states=len(inv),
+                                  inputs='all reals (NaN/inf reaching comparisons: Kani part)'),
+                      sample={'invariant_set': str(inv[:8]), 'step': 'next(symbolic input) from symbolic buffers'})
